@@ -327,7 +327,10 @@ def _run(case, out, w):
                 out.label("corrupted_ciphertext")
                 if k != 0:
                     out.label("reordered_delivery")
-                server.step(clients, k, mutate=lambda n, _b=op[2] if len(op) > 2 else 0: corrupt(n, _b))
+                where = op[3] if len(op) > 3 else None
+                if where is not None:
+                    out.label("corrupted_at=" + ("cut" if isinstance(where, list) else "head" if 0 <= where < 8 else "tail" if where < 0 else "body"))
+                server.step(clients, k, mutate=lambda n, _b=op[2] if len(op) > 2 else 0, _w=where: corrupt(n, _b, _w))
                 continue
             if k != 0:
                 nt = True
@@ -504,14 +507,21 @@ def delivered_to(clients, m):
     return set(j for j in m["recipients"] if any(e.getTag() == "message" and e.getId() == m["id"] for e in clients[j].app_got))
 
 
-def corrupt(node, which):
+def corrupt(node, which, where=None):
+    """where: None = the middle byte; an int = that byte position (negative from the end: the MAC; 0 = the version byte, 1.. = the
+    framing of the serialised message); ["cut", n] = only the first n bytes arrive"""
     encs = node.getAllChildren("enc")
     target = encs[which % len(encs)]
     children = []
     for c in node.getAllChildren():
         if c is target:
             d = bytearray(c.data)
-            d[len(d) // 2] ^= 0x5A
+            if where is None:
+                d[len(d) // 2] ^= 0x5A
+            elif isinstance(where, list):
+                d = d[:max(1, min(len(d) - 1, where[1]))]
+            else:
+                d[where % len(d)] ^= 0x5A
             children.append(N("enc", dict(c.attributes), None, bytes(d)))
         else:
             children.append(c)
@@ -538,6 +548,8 @@ def script_strategy(tier):
     op = st.one_of(send, send, send,
                    st.tuples(st.just("deliver"), sel).map(list), st.tuples(st.just("deliver"), st.just(0)).map(list),
                    st.tuples(st.just("dup"), sel).map(list), st.tuples(st.just("corrupt"), sel, sel).map(list),
+                   st.tuples(st.just("corrupt"), sel, sel, st.one_of(st.sampled_from([0, 1, 2, 3, 5, 9, 34, 40, -1, -8, -9]), st.integers(0, 300),
+                                                                   st.tuples(st.just("cut"), st.sampled_from([1, 2, 5, 20, 60])).map(list))).map(list),
                    st.tuples(st.just("restart"), sel).map(list), st.tuples(st.just("loop"), sel).map(list),
                    st.just(["settle"]), st.just(["advance"]), st.just(["advance"]), st.just(["advance"]))
 
